@@ -1425,6 +1425,12 @@ def _ct_helper_body(ck, helper):
                 key = v.slice
             if key is not None:
                 if not _ext_shape_of(deref(key, r), pn):
+                    try:
+                        from contracts import c14_access as A
+                        if A.key_proved(hk.mod, deref(key, r), pn, ck.mod.repo, contracts) is True:
+                            continue
+                    except Exception:  # noqa
+                        pass
                     if _ext_by_evaluation(deref(key, r), pn) is True:
                         bounded = True
                         continue
@@ -1442,13 +1448,23 @@ def _ct_helper_body(ck, helper):
         return f"{helper}: shape not recognised ({type(e).__name__})"
 
 
+def _key_proved(ck, k, at):
+    """the key expression, over a name that holds the part name, is the lower-cased extension -- by proof (c14_access.key_proved)"""
+    try:
+        from contracts import c14_access as A
+        return any(_names_the_part(ck, nm, at) and A.key_proved(ck.mod, k, nm, ck.mod.repo, contracts) is True
+                   for nm in sorted({x.id for x in ast.walk(k) if isinstance(x, ast.Name)}))
+    except Exception:  # noqa
+        return False
+
+
 def _ct_from_extension(ck, sites, of_names, label="looked-up-by-the-lower-cased-extension"):
     """content_type= is `_CONTENT_TYPE_MAP.get(ext, ...)` / `_CONTENT_TYPE_MAP[ext]` with ext = the lower-cased text after the last dot of
     a name that (by data flow) holds the part name, or `_get_content_type(<such a name>)` / `guess_content_type(<such a name>)`.
     Anything else is `unknown`: the native sweep of content types decides."""
     from contracts import c14_sites as SI
     from contracts.c14_flow import reaching
-    bad, ok, evaluated = [], 0, []
+    bad, ok, evaluated, proved_keys = [], 0, [], []
 
     def ext_of(e, at):
         s = ast.unparse(e).replace('"', "'")
@@ -1479,7 +1495,10 @@ def _ct_from_extension(ck, sites, of_names, label="looked-up-by-the-lower-cased-
             key = v.slice
         if key is not None:
             k, kat = deref(key, at)
-            if ext_of(k, kat):
+            if _key_proved(ck, k, kat):     # round 7: discharged by the engine over a symbolic part name (not a shape match, not a corpus run)
+                ok += 1
+                proved_keys.append(f"line {LN(c)}: {ast.unparse(k)[:60]}")
+            elif ext_of(k, kat):
                 ok += 1
             elif any(_names_the_part(ck, nm, kat) and _ext_by_evaluation(k, nm) is True for nm in sorted({x.id for x in ast.walk(k) if isinstance(x, ast.Name)})):
                 ok += 1
@@ -1501,6 +1520,9 @@ def _ct_from_extension(ck, sites, of_names, label="looked-up-by-the-lower-cased-
     if bad or not ok:
         return ck.unknown("content-type", label, "; ".join(bad) or "no content_type= found")
     ck.add("content-type", label, True)
+    if proved_keys:
+        ck.obls[-1]["reason"] = "key == LOWER(text after the last dot) proved over a symbolic part name: " + "; ".join(proved_keys)[:300]
+        ck.obls[-1]["backends"] = dict(ck.obls[-1].get("backends") or {}, z3=len(proved_keys))
     if evaluated:     # not proved: the key expression was executed on a corpus of part names (BOUNDED stand-in, DESIGN 2.8)
         ck.obls[-1]["bounded"] = True
         ck.obls[-1]["reason"] = f"key expression executed on {len(EXT_CORPUS)} part names, equals the lower-cased extension each time: " + "; ".join(evaluated)[:300]
